@@ -414,21 +414,7 @@ class SymInt:
         return self
 
     def concretize(self, limit=64):
-        ex = cur()
-        e = z3.simplify(self.e)
-        if z3.is_int_value(e):
-            return e.as_long()
-        for _ in range(limit):
-            m = ex.model
-            if m is None:
-                ok, m = ex._check()
-                if not ok:
-                    raise core.PathAbort()
-                ex.model = m
-            v = m.eval(e, model_completion=True).as_long()
-            if ex.decide(e == v):
-                return v
-        raise HarnessError(f"unbounded concretisation of {e}")
+        return cur().concretize(self.e, limit)
 
     def __hash__(self):
         return hash(self.concretize())
